@@ -81,6 +81,11 @@ def run(check, prog):
     # expansion can hold it (rule shared with C02)
     from . import c02 as _c02
     _c02.cluster_order_cap(check, prog)
+    # extinction from the forward amplitude agrees with the Python-side series to
+    # double precision only if the compiled amplitude sums are formed in double
+    # precision (rules shared with C02)
+    _c02.fortran_double_precision(check, prog)
+    _c02.fortran_single_precision_quotients(check, prog)
 
 
 def slots(v):
